@@ -12,12 +12,13 @@ PACKET = RecT('Packet', {
     'attachment_count': Leaf('I'), 'attachments': SeqT('V')})
 
 # ghost logs (DESIGN.md 3.5)
-CALLS = LogT({'fn': 'V', 'args': 'seq'})                       # application handler / callback invocations
+CALLS = LogT({'fn': 'V', 'args': 'seq', 'ret': 'V'})                     # application handler / callback invocations
 OUT = MapT(LogT({'ptype': 'V', 'ns': 'V', 'id': 'V', 'data': 'V', 'binary': 'V'}), total=True)   # packets queued per transport
 RAW = MapT(LogT({'frame': 'V'}), total=True)                   # engine.io frames queued per transport
 TASKS = LogT({'fn': 'V', 'args': 'seq'})                       # background tasks started
+DISP = LogT({'event': 'V', 'ns': 'V', 'args': 'seq', 'ret': 'V'})   # abstract effect: one dispatch of an event to the responsible target (defined by C13)
 
-GHOST = {'calls': CALLS, 'out': OUT, 'raw': RAW, 'tasks': TASKS}
+GHOST = {'calls': CALLS, 'out': OUT, 'raw': RAW, 'tasks': TASKS, 'disp': DISP}
 
 
 def server_world(name='server', server_cls=('server', 'Server'), manager_cls=('manager', 'Manager')):
